@@ -174,6 +174,10 @@ def elligator (sr : SR) (zeta : Nat) (r0 : Nat) : Option Ext :=
     let H := t
     some ⟨fmul q E H, fmul q F G, fmul q F H, fmul q E G⟩
 
+/-- the two-input hash (`hash_to_curve`): the group sum, by the backend's addition, of the two one-input images -/
+def hashToCurve (sr : SR) (zeta : Nat) (add : Ext → Ext → Ext) (r1 r2 : Nat) : Option Ext :=
+  (elligator sr zeta r1).bind fun a => (elligator sr zeta r2).bind fun b => some (add a b)
+
 /-! ### Specification (transcription of ristretto.sage, Decaf_1_1_Point with a = -1, d = 3021, cofactor 4,
 isoMagic = 1, qnr = ZETA), executable so that the driver can serve as oracle. -/
 
